@@ -199,7 +199,7 @@ let gen (line : string) : string =
     | [] -> None
     | cs -> (match pick_from cs with
         | `Connect -> incr cid; Some (Connect (nat_of_int (rand nl), n_of_int !cid))
-        | `Inject -> Some (Inject (nat_of_int (rand nl), pick_from [EWouldBlock; ETransient; EOther; EOther]))
+        | `Inject -> Some (Inject (nat_of_int (rand nl), pick_from [ETransient; EOther; EOther] (* a WouldBlock while the backlog is non-empty is not something the kernel produces *)))
         | `Op o -> Some o) in
   let mk_ys () : eop list list =
     if not (has 'y') || rand 3 <> 0 then [] else
